@@ -73,7 +73,18 @@ func levelB(w *sim.World) {
 	}
 	var cuts []cut
 	stopSrv, stopAt := 0, time.Duration(0)
-	if n >= 3 {
+	rolling := n >= 3 && w.Choose(sim.KFault, 3) == 0
+	if rolling {
+		// every server is cut off once, one after the other (whoever leads is deposed at some
+		// point), each window longer than an election
+		at := 200 * time.Millisecond
+		for i := 1; i <= n; i++ {
+			d := time.Duration(500+w.Choose(sim.KFault, 6)*100) * time.Millisecond
+			cuts = append(cuts, cut{i, at, d})
+			at += d + 200*time.Millisecond
+		}
+		w.Probe("level_b_rolling_cuts")
+	} else if n >= 3 {
 		for k := w.Choose(sim.KFault, 3); k > 0; k-- {
 			cuts = append(cuts, cut{1 + w.Choose(sim.KFault, n), time.Duration(100+w.Choose(sim.KFault, 30)*100) * time.Millisecond, time.Duration(200+w.Choose(sim.KFault, 15)*100) * time.Millisecond})
 		}
@@ -87,6 +98,15 @@ func levelB(w *sim.World) {
 	if cfg.Persist {
 		w.Probe("level_b_persist")
 	}
+	plannedEnd := stopAt
+	for _, c := range cuts {
+		if c.at+c.dur > plannedEnd {
+			plannedEnd = c.at + c.dur
+		}
+	}
+	// paced workload (half of the runs): pauses between a client's operations spread them over
+	// the fault windows; afterwards every client reads every key once more (final reads)
+	paced := w.Choose(sim.KCfg, 2) == 1
 	dbs := make([]*badger.DB, n+1)
 	lastDesc = fmt.Sprintf("level B (bootstrap over simulated network): persist=%v servers=%d clients=%d ops/client=%d keys=%v clientTimeout=%v appendEntries=%v cuts=%v stop=%d@%v", cfg.Persist, n, nc, nOps, keys, cfg.ClientRequestTimeout, cfg.AppendEntriesSendInterval, cuts, stopSrv, stopAt)
 	w.Event("cfg %s", lastDesc)
@@ -143,11 +163,25 @@ func levelB(w *sim.World) {
 					w.Fail("archetype_failed", "client %d: Run returned %v | %s", k, err, lastDesc)
 				}
 			})
-			for j := 0; j < nOps; j++ {
+			total := nOps
+			if paced {
+				total = nOps + len(keys)
+			}
+			for j := 0; j < total; j++ {
 				key := keys[w.Choose(sim.KOp, len(keys))]
+				finalRead := j >= nOps
+				if finalRead {
+					key = keys[j-nOps]
+					if j == nOps && w.Now() < plannedEnd+500*time.Millisecond {
+						w.Sleep(plannedEnd + 500*time.Millisecond - w.Now())
+					}
+					w.Probe("level_b_final_read")
+				} else if paced && j > 0 {
+					w.Sleep(time.Duration(w.Choose(sim.KOp, 5)) * 150 * time.Millisecond)
+				}
 				op := &raftrun.Op{Client: k, Key: key, Sends: 1}
 				var req bootstrap.Request
-				if w.Choose(sim.KOp, 2) == 0 {
+				if !finalRead && w.Choose(sim.KOp, 2) == 0 {
 					op.Put, op.Value = true, fmt.Sprintf("v%d", uniq)
 					uniq++
 					req = bootstrap.PutRequest{Key: key, Value: op.Value}
